@@ -126,7 +126,7 @@ def memo_key_completeness(ctx: Ctx) -> None:
         fi = s.fi
         params = [a.arg for a in fi.params if a.arg != "self"]
         key_names = _flow_sources(fi, s.key, params)
-        val_names = _flow_sources(fi, s.value, params)
+        val_names = _flow_sources(fi, s.value, params) | _control_sources(fi, s.node, params)
         missing = sorted(n for n in val_names if n not in key_names)
         ctx.ob(f"{s.cls.name}.{fi.name}: memo self.{s.attr}[{unparse(s.key)}] is keyed by every parameter its value depends on", not missing, at=fi, node=s.node,
                construct=f"memo key {s.attr}", msg=f"value depends on parameter(s) {missing} that are not part of the key: a later call with other arguments gets the entry built for the first")
@@ -169,6 +169,20 @@ def _flow_sources(fi: FuncInfo, e: ast.expr | None, params: list[str]) -> set[st
         seen.add(n)
         work.extend(defs.get(n, ()))
     return {n for n in seen if n in params}
+
+
+def _control_sources(fi: FuncInfo, store: ast.AST, params: list[str]) -> set[str]:
+    """Parameters read by the conditions the memo store is control-dependent on (which entry is stored depends on them)."""
+    g = build_cfg(fi.node)
+    n = g.node_of(store)
+    if n is None:
+        return set()
+    out: set[str] = set()
+    for t in g.nodes:
+        if t.kind == "test" and (g.only_if(n.id, t.id, True) or g.only_if(n.id, t.id, False)):
+            out |= _flow_sources(fi, t.ast, params)
+    # **kwargs forwarded to the calls inside those conditions count as read
+    return out
 
 
 def _value_self_reads(fi: FuncInfo, e: ast.expr | None) -> set[str]:
